@@ -105,11 +105,12 @@ Qed.
 Lemma CInv_on_disconnected s c : CInv s -> CInv (on_disconnected s c).
 Proof.
   intros [A B]. unfold on_disconnected. cbv zeta.
-  set (s1 := upd_qm s (a_del (qm s) c)).
+  set (sq := upd_qm s (a_del (qm s) c)).
+  set (s1 := upd_removed sq (c :: del c (removed sq))).
   set (s2 := if running s1 then upd_reqC s1 (reqC s1 ++ [c]) else s1).
   set (s3 := upd_pendm s2 (a_del (pendm s2) c)).
   assert (F3 : qm s3 = a_del (qm s) c /\ cbq s3 = cbq s /\ str s3 = str s).
-  { subst s3 s2 s1. destruct (running (upd_qm s (a_del (qm s) c))); cbn; repeat split; reflexivity. }
+  { unfold s3, s2. destruct (running s1); unfold s1, sq; cbn; repeat split; reflexivity. }
   destruct F3 as (F1 & F2 & F3).
   destruct (fold_disc_own c (cbs_of s3 c) s3) as (G1 & G2 & G3); [rewrite F3; exact B|].
   set (s4 := fold_left _ (cbs_of s3 c) s3) in *.
@@ -200,9 +201,10 @@ Proof.
   - (* SPumpReq *)
     destruct (pumpAlive s && negb (pumpStuck s)); [|exact Ci].
     destruct (reqC s) as [|c rest] eqn:Er; [exact Ci|]. cbv zeta.
-    set (s1 := upd_reqC s rest).
-    assert (S1 : SInv s1) by (apply (SInv_core s); [constructor; reflexivity|exact Si]).
-    assert (C1 : CInv s1) by (apply (CInv_same s); [reflexivity|reflexivity|apply no_ev; reflexivity|exact Ci]).
+    set (s0 := upd_reqC s rest).
+    set (s1 := if mem c (removed s0) then upd_ctxm (upd_removed s0 (del c (removed s0))) (a_del (ctxm s0) c) else s0).
+    assert (S1 : SInv s1) by (apply (SInv_core s); [unfold s1; destruct (mem c (removed s0)); constructor; reflexivity|exact Si]).
+    assert (C1 : CInv s1) by (apply (CInv_same s); [unfold s1; destruct (mem c (removed s0)); reflexivity|unfold s1; destruct (mem c (removed s0)); reflexivity|apply no_ev; unfold s1; destruct (mem c (removed s0)); reflexivity|exact Ci]).
     destruct (qof s1 c) eqn:Eq.
     + apply CInv_stail; [| |right; reflexivity].
       * match goal with |- SInv (upd_loc ?x _ _ _) => apply (SInv_core x); [constructor; reflexivity|exact S1] end.
